@@ -10,7 +10,8 @@ Necessary structural conditions (the digit-level exactness of the string scanner
       reaches both exits unrounded (no round/trunc/floor/ceil/abs);
   K2  every arithmetic table entry (+ - * / % min max) returns only through that
       conversion, and nothing else in their reach builds a JSON number;
-  K3  operations: + folds float Add from 0.0, * folds float Mul from 1.0,
+  K3  operations: folds run left to right over all operands (no reversing /
+      skipping adaptor); + folds float Add from 0.0, * folds float Mul from 1.0,
       - / % apply float Sub/Div/Rem to (operand 0, operand 1) in that order
       (one-operand - multiplies by -1 or negates), min/max fold from +inf/-inf
       with a strict float comparison; only double arithmetic — no integer
@@ -116,6 +117,10 @@ def run(ctx):
             if op in ("+", "*", "min", "max"):
                 folds = [s for s in u.calls_path(r"Iterator(>)?::fold$")]
                 ctx.check(len(folds) == 1, "K3.fold", "%s folds over all operands once (%s)" % (op, cfg), "%d folds" % len(folds), where=b.where(), fn=b.key)
+                from .c13 import REORDER
+                bad_ad = [callee_path(x.term) for x in u.calls_path(REORDER.pattern)]
+                ctx.check(not bad_ad, "K3.fold-in-order", "%s folds its operands left to right, all of them (float arithmetic is not associative, -0 < +0 is not strict) (%s)" % (op, cfg),
+                          "%s applies %s to its operands before folding: the double result is that of another order or of fewer operands" % (op, bad_ad), where=b.where(), fn=b.key, nontrivial=True)
                 for s in folds:
                     seed = strip_refs(s.body.trace(s.term["args"][1]))
                     sv = None
